@@ -6,7 +6,7 @@ tasks with optional reset_stats()/clear_cache() between them, run once per sub-s
 with a restart criterion of the case (`gt k`: len(_data) - _last_size > k, the shape of the default one;
 `every m`: _programs % m == 0; `never`; `always`) and a uniform prior.  A task = (examples, enumerator,
 clock events, answers):
-  enumerator : the REAL heap-search enumerator on a ProbDetGrammar (uniform or random weights) over
+  enumerator : a REAL enumerator (heap search 70%, beap search, constant-delay search) on a ProbDetGrammar (uniform or random weights) over
                CFG.depth_constraint(dsl, type_request, 2|3), wrapped only to record what is pulled, which
                grammars `clone` receives and what `_data` holds then; the i-th enumerator (after i restarts)
                may be truncated to `limits[i]` programs (so that exhaustion happens at chosen places)
@@ -91,6 +91,7 @@ def gen_task(rng, name, spec, var_types, tier):
     else:
         answers = ["F"] * rng.randint(0, 3) + [rng.choice(["T", "one"])] + ["F"] * rng.randint(0, 2)
     return {"examples": examples, "rtype": rty, "depth": depth, "weights": rng.choice(["uniform", "uniform", rng.randint(1, 10 ** 6)]),
+            "enumerator": rng.choice(["heap"] * 7 + ["beap", "cd", "cd"]),
             "limits": limits, "cap": cap, "dl": dl, "answers": answers}
 
 
@@ -131,6 +132,9 @@ def shrink(case):
             yield with_task(nt)
         if t["depth"] > 2:
             nt = dict(t); nt["depth"] = 2
+            yield with_task(nt)
+        if t.get("enumerator", "heap") != "heap":
+            nt = dict(t); nt["enumerator"] = "heap"
             yield with_task(nt)
     if case["criterion"] != ["never"]:
         c = dict(case); c["criterion"] = ["never"]
@@ -247,8 +251,9 @@ def run_impl(kind, case, ctx):
     from synth.task import Task
     from synth.pbe.solvers import NaivePBESolver, CutoffPBESolver
     from synth.pbe.solvers.restart_pbe_solver import RestartPBESolver
-    from synth.syntax.grammars.enumeration.heap_search import enumerate_prob_grammar
+    from synth.syntax.grammars.enumeration import heap_search, beap_search, constant_delay
     from synth.syntax import auto_type
+    mods = {"heap": heap_search, "beap": beap_search, "cd": constant_delay}
     Wrapped = _wrapped_class()
     ev = DSLEvaluator(ctx["sem"], use_cache=case["use_cache"])
     for s in case["skips"]:
@@ -263,7 +268,7 @@ def run_impl(kind, case, ctx):
             ev.clear_cache(); obs.append(None); continue
         t = op[1]
         reg = {"enums": [], "snaps": []}
-        enum = Wrapped(enumerate_prob_grammar(_pcfg(ctx["dsl"], ctx["var_types"], t)), reg, t["limits"], solver)
+        enum = Wrapped(mods[t.get("enumerator", "heap")].enumerate_prob_grammar(_pcfg(ctx["dsl"], ctx["var_types"], t)), reg, t["limits"], solver)
         tr = auto_type(G.ty_str(G.arrow(*ctx["var_types"], "int")))
         task = Task(tr, PBE([Example(list(i), o) for i, o in t["examples"]]))
         timeout = 0.0 if t["dl"] == "real0" else B.Deadline(full_dl(t))
@@ -585,6 +590,7 @@ def check(case, M):
             # --- histogram
             tags.add("end." + str(want["end"]).split(":")[0])
             tags.add(f"examples{len(t['examples'])}")
+            tags.add("enumerator." + t.get("enumerator", "heap"))
             tags.add(f"restarts{min(want['restarts'], 4)}{'+' if want['restarts'] >= 4 else ''}")
             if t["limits"]:
                 tags.add("truncated-enumerators")
